@@ -723,8 +723,14 @@ func (r *Round) getState() Phase {
 }
 
 func (r *Round) setPhase(state Phase) {
-	if state > r.getState() {
-		atomic.StoreInt32((*int32)(&r.phase), int32(state))
+	for {
+		cur := r.getState()
+		if state <= cur {
+			return
+		}
+		if atomic.CompareAndSwapInt32((*int32)(&r.phase), int32(cur), int32(state)) {
+			return
+		}
 	}
 }
 
